@@ -6,8 +6,10 @@
      batchie.retrospective.unmask_screen    same with observation_mask = ones          -- NO mappings today
      batchie.retrospective.reveal_plates    reveal_mask = isin(screen.plate_ids, plate_ids); guards on
                                             screen.observations[reveal_mask] (all == 0, incl. the empty
-                                            selection since np.all([]) is True  ->  ValueError; any NaN ->
-                                            ValueError); Screen(..., observation_mask = old | reveal_mask)
+                                            selection since np.all([]) is True  ->  ValueError; then, PER
+                                            selected plate (np.unique(screen.plate_ids[reveal_mask])), all of
+                                            that plate's values == 0 -> the same ValueError [fix fx5]; any NaN
+                                            -> ValueError); Screen(..., observation_mask = old | reveal_mask)
                                                                                        -- NO mappings today
      batchie.data.Screen.save_h5 / load_h5  load_h5 calls Screen(...) with the stored rows, observations,
                                             observation_mask AND the stored treatment_mapping / sample_mapping
@@ -23,7 +25,7 @@
    repaired construction.
    Abstracted: HDF5 storage itself (dataset write -> read returns the same array; that is C02's subject);
    mapping id arrays of an existing Screen have an integer dtype (hence the flag [true]).
-   Error tags (continuing Model/Encode.v): 8 all revealed values zero (or none selected), 9 NaN among
+   Error tags (continuing Model/Encode.v): 8 all revealed values zero (or none selected) or a selected plate all zero, 9 NaN among
    revealed values, 10 selection length <> size, 11 value count does not fit the selection.
    No proofs here. *)
 From Coq Require Import ZArith List Bool.
@@ -75,7 +77,27 @@ Definition revealed_values (s : screen) (ids : list Z) : list Z :=
 Definition reveal_rows (s : screen) (ids : list Z) : list row :=
   map (fun rb => with_mask (r_mask (fst rb) || snd rb) (fst rb)) (combine (s_rows s) (reveal_sel s ids)).
 
+(* screen.observations[screen.plate_ids == pid]: the stored values of ONE plate *)
+Definition plate_values (s : screen) (pid : Z) : list Z :=
+  map r_obs (select (map (fun p => p =? pid) (s_pids s)) (s_rows s)).
+(* np.unique(screen.plate_ids[reveal_mask]): the plates of the screen that the ids name, each once, ascending *)
+Definition revealed_plate_ids (s : screen) (ids : list Z) : list Z :=
+  sort_uniq Z.compare (select (reveal_sel s ids) (s_pids s)).
+(* the zero guard of the code as repaired (fix fx5): nothing selected / all selected values zero (the joint test, kept: it
+   is what refuses the empty selection), or SOME selected plate whose own stored values are all zero *)
+Definition reveal_zero_guard (s : screen) (ids : list Z) : bool :=
+  forallb obs_is_zero (revealed_values s ids)
+  || existsb (fun pid => forallb obs_is_zero (plate_values s pid)) (revealed_plate_ids s ids).
+
 Definition reveal_plates (v : variant) (s : screen) (ids : list Z) : result screen :=
+  if reveal_zero_guard s ids then Err 8
+  else if existsb obs_is_nan (revealed_values s ids) then Err 9
+  else rebuild (carry_reveal v) s (reveal_rows s ids).
+
+(* the code BEFORE fix fx5: the zero guard looked at the union of the selected rows only, so an all-zero plate named
+   together with a plate holding a non-zero value was revealed.  Kept only as the subject of
+   C12_reveal_refuses_zero_per_plate_refuted; nothing else mentions it. *)
+Definition reveal_plates_joint (v : variant) (s : screen) (ids : list Z) : result screen :=
   if forallb obs_is_zero (revealed_values s ids) then Err 8
   else if existsb obs_is_nan (revealed_values s ids) then Err 9
   else rebuild (carry_reveal v) s (reveal_rows s ids).
@@ -177,6 +199,7 @@ Definition attr_smap (s : screen) : smap_t := (s_smap s, true).
 (* numpy, one call each *)
 Definition np_isin (a l : list Z) : list bool := map (fun x => mem_Z x l) a.            (* np.isin(a, l) *)
 Definition np_eq_zero (x : list Z) : list bool := map obs_is_zero x.                    (* x == 0, x a float array *)
+Definition np_eq_Z (a : list Z) (p : Z) : list bool := map (fun x => x =? p) a.         (* a == p, a an int array, p an int *)
 Definition np_isnan (x : list Z) : list bool := map obs_is_nan x.                       (* np.isnan(x) *)
 Definition np_all (b : list bool) : bool := forallb (fun x => x) b.                     (* np.all(b); True for the empty array *)
 Definition np_any (b : list bool) : bool := existsb (fun x => x) b.                     (* np.any(b) *)
@@ -249,8 +272,3 @@ Definition set_cols (s : screen) (ob : list Z) (mk : list bool) : screen :=
 Definition np_eq_name (a : list name) (x : name) : list bool := map (fun y => name_eqb y x) a.      (* a == x, a a string array *)
 Definition np_eq_bool (a : list bool) (b : bool) : list bool := map (fun y => Bool.eqb y b) a.      (* a == b, a a bool array *)
 
-(* ==== per-plate reading of the reveal guards (vocabulary of Proofs/C12PerPlate.v) ====
-   screen.observations[screen.plate_ids == pid]: the stored values of ONE plate.  The code's guards look at the
-   union of all selected plates (revealed_values); the property speaks of "plates whose stored values are all zero". *)
-Definition plate_values (s : screen) (pid : Z) : list Z :=
-  map r_obs (select (map (fun p => p =? pid) (s_pids s)) (s_rows s)).
